@@ -24,6 +24,31 @@ func init() {
 		runScale(c, sub, "C07")
 		cfg := gen.Cfg{ExprDepth: 2, BodyLen: 4, Nest: 4, Calls: true, Probe: true, If: true, For: true, Set: true, SetCap: true, Macros: true, Collide: true, LoopMeta: true}
 		sub.Rapid(c, c.Share(c.Pick(25000, 1000000)), progGen(cfg))
+		// the same programs as the child of a layout: the leading assignments
+		// stay at the template's top level, the rest moves into a block ("a set
+		// at template level is visible to everything that follows")
+		sub.Rapid(c, c.Share(c.Pick(6000, 250000)), func(t *rapidT) *progCase {
+			pc := progGen(cfg)(t)
+			main := pc.P.Tpls[0]
+			var top, rest []*m.N
+			i := 0
+			for ; i < len(main.Body); i++ {
+				k := main.Body[i].K
+				if k != "set" && k != "setcap" && k != "macro" {
+					break
+				}
+				top = append(top, main.Body[i])
+			}
+			rest = main.Body[i:]
+			if len(top) == 0 {
+				top = []*m.N{{K: "set", S: "title", X: m.EStr("T")}}
+				rest = append([]*m.N{m.NPrint(m.EName("title"))}, rest...)
+			}
+			main.Body = append(append([]*m.N{{K: "extends", X: m.EStr("layout")}}, top...), &m.N{K: "block", S: "body", Body: rest})
+			pc.P.Tpls = append(pc.P.Tpls, &m.Tpl{Name: "layout", Body: []*m.N{m.NText("L["), {K: "block", S: "body", Body: []*m.N{m.NText("default")}}, m.NText("]"),
+				m.NPrint(m.ECall("probe", m.EStr("title"))), m.NPrint(m.ECall("probe", m.EStr("v0")))}})
+			return pc
+		})
 	}
 	Register(p)
 }
